@@ -26,8 +26,10 @@ def act64(c, x):
 
 def main():
   rep = vlib.Report(PROP, "proof")
-  info = vlib.build_obligations(PROP)
-  errs = rep.obligations(info, "coqc -Q coq/theories QV coq/theories/Properties/C02.v (Print Assumptions under every theorem)")
+  from translate import lingen
+  lgen = lingen.emit(vlib.GEN)
+  info = vlib.build_obligations(PROP, gen_files=[lgen], extra_files=[os.path.join(vlib.COQ, "theories", "Link", "LinLink.v")])
+  errs = rep.obligations(info, "python3 tools/translate/lingen.py coq/gen && coqc coq/gen/LinGen.v && coqc coq/theories/Link/LinLink.v && coqc coq/theories/Properties/C02.v (Print Assumptions under every theorem)")
   for e in errs:
     rep.violation("obligation-" + os.path.basename(e["file"]), "proof obligation no longer checks: " + e["error"][-400:],
                   {"file": e["file"]}, no_input=True)
